@@ -40,7 +40,11 @@ def gen_case(seed, idx, tier):
         c.skip = "no-valid-line"
         return c
     nsp = 8 if tier == "quick" else 24
-    exp = argh.expected(cfg, uses)
+    try:
+        exp = argh.expected(cfg, uses)
+    except argh.ModelAbstain:
+        c.skip = "model-abstains"
+        return c
     # optional tail: a multi-value list spelled as separate words (first value attached, glued or as next word), ended by a
     # value-less flag (any spelling), followed by the free value of the positional argument
     tail_variants = None
